@@ -8,16 +8,36 @@
 (* RUnlock, ambiguity pre-check / strict URL / AllowHeader outside the lock) *)
 (* and is kept as a named deviation: TLC must find its counterexample.       *)
 EXTENDS Naturals, Sequences, FiniteSets, TLC
-CONSTANTS Writers, Readers, Discipline, NOps
+\* (the @type comments are for Apalache, which discharges the inductive invariant of apalache/LockInd.tla; TLC ignores them)
+CONSTANTS
+  \* @type: Set(Str);
+  Writers,
+  \* @type: Set(Str);
+  Readers,
+  \* @type: Str;
+  Discipline,
+  \* @type: Int;
+  NOps
 Procs == Writers \cup Readers
-VARIABLES pc,      \* program counter of every goroutine
-          wl, rl,  \* write-lock holder ("none") / set of read-lock holders
-          acc,     \* acc[p] \in {"none","r","w"}: p is inside an access to the tree right now
-          left,    \* operations still to start
-          live,    \* the toggled route is registered (its node has handlers)
-          gen,     \* generation of the toggled route's handler (changes on every registration)
-          view,    \* what a reader's walk found: <<found, generation>>
-          reply    \* last reply of a reader
+VARIABLES
+  \* @type: Str -> Str;
+  pc,      \* program counter of every goroutine
+  \* @type: Str;
+  wl,      \* write-lock holder ("none")
+  \* @type: Set(Str);
+  rl,      \* set of read-lock holders
+  \* @type: Str -> Str;
+  acc,     \* acc[p] \in {"none","r","w"}: p is inside an access to the tree right now
+  \* @type: Str -> Int;
+  left,    \* operations still to start
+  \* @type: Bool;
+  live,    \* the toggled route is registered (its node has handlers)
+  \* @type: Int;
+  gen,     \* generation of the toggled route's handler (changes on every registration)
+  \* @type: Str -> <<Bool, Int>>;
+  view,    \* what a reader's walk found: <<found, generation>>
+  \* @type: Str -> Str;
+  reply    \* last reply of a reader
 vars == <<pc, wl, rl, acc, left, live, gen, view, reply>>
 
 Init == /\ pc = [p \in Procs |-> "idle"] /\ wl = "none" /\ rl = {} /\ acc = [p \in Procs |-> "none"]
